@@ -63,7 +63,8 @@ class View:
                 for e in self.reqs:
                     if e['op'] == f['op'] and e['seq'] == f['nth'] and e['phase'] == 'begin':
                         ti = e['ti']
-                out.append({'ti': ti, 'site': 'req:%s:%s' % (f['op'], f['when']), 'exc': f['exc'], 'retryable': False})
+                out.append({'ti': ti, 'site': 'req:%s:%s' % (f['op'], f['when']), 'exc': f['exc'],
+                            'retryable': f['op'] == 'get_object' and not isinstance(f['exc'], InjectedFault)})
         # FaultPlan.check and _call both append; de-duplicate by exception identity
         seen, ded = set(), []
         for f in out:
@@ -137,7 +138,7 @@ def judge_C03(v):
         if oc[0] == 'ok':
             for f in mine:
                 site = f['site']
-                if site == 'body' and f['retryable']:
+                if f['retryable']:
                     continue          # recovered by a later attempt (budget judged below)
                 if site.startswith('req:abort_multipart_upload'):
                     continue          # cleanup failure is swallowed; the transfer had failed already
@@ -241,6 +242,18 @@ def judge_C06(v):
         if temps:
             out.append(('temp-file-left:%s' % oc[0], v.wit(ti=ti, files=temps, outcome=oc[0]),
                         'temporary file %s present when result() returned (%s)' % (temps, oc[0])))
+        late = [n for n in (v.run.leftover or []) if n.startswith('dst%d.' % ti)]
+        if late and not temps:
+            out.append(('temp-file-appeared-after-done:%s' % oc[0], v.wit(ti=ti, files=late, outcome=oc[0]),
+                        'temporary file %s exists after the manager shut down although none existed when result() returned '
+                        '(a write ran after the cleanup)' % late))
+        if rr:
+            t_done = rr[0]['t']
+            after = [e for e in v.ev if e['k'] in ('fs-open', 'fs-write') and e['t'] > t_done
+                     and str(e.get('name', '')).startswith('dst%d' % ti)]
+            if after:
+                out.append(('file-activity-after-done', v.wit(ti=ti, ops=[(e['k'], e.get('name')) for e in after][:4], outcome=oc[0]),
+                            'the destination / temporary file of download %d was opened or written after result() returned' % ti))
         final = v.run.final_files.get('dst%d' % ti)
         prev = v.run.specs[ti].get('previous')
         obj = v.run.specs[ti]['data']
@@ -271,6 +284,12 @@ def judge_C07(v):
         return out
     if not c:
         return out
+    # a cancelled transfer leaves nothing behind (C06's file checks, for transfers that ended cancelled)
+    for sig, wit, what in judge_C06(v):
+        ti = wit.get('ti') if isinstance(wit, dict) else None
+        oc = v.outcome(ti) if ti is not None else None
+        if sig.startswith(('temp-file', 'file-activity-after-done')) and oc and oc[0] == 'raise' and _is_cancel_exc(oc[1]):
+            out.append(('cancelled:' + sig, wit, what))
     if c['kind'] == 'future':
         ti = c['transfer']
         ret = v.events('cancel-returned', ti)
